@@ -39,6 +39,32 @@ Qed.
 Example ellipse_pos_on_ex : on_conic (1, 2) (ellipse_conic 10 5 (3#5) (4#5)) (ellipse_pos 10 5 (3#5) (4#5) (1, 2) (5#13) (12#13)).
 Proof. apply ellipse_pos_on; try (intro H; discriminate H); reflexivity. Qed.
 
+(** division-free residual in the ellipse's own frame (used by the executable checkers: all denominators stay
+    powers of two): resid = (qf - 1) * rx^2 ry^2 *)
+Definition frame (cs sn : Q) (w : qpt) : qpt := (cs * fst w + sn * snd w, cs * snd w - sn * fst w).
+Definition ell_resid (rx ry cs sn : Q) (w : qpt) : Q :=
+  let f := frame cs sn w in
+  fst f * fst f * (ry * ry) + snd f * snd f * (rx * rx) - rx * rx * (ry * ry).
+
+Lemma ell_resid_eq rx ry cs sn w :
+  ~ rx == 0 -> ~ ry == 0 ->
+  ell_resid rx ry cs sn w == (qf (ellipse_conic rx ry cs sn) w - 1) * (rx * rx * (ry * ry)).
+Proof.
+  intros Hx Hy. unfold ell_resid, frame, qf, ellipse_conic; cbn [qA qB qC fst snd]. field. split; assumption.
+Qed.
+
+Lemma ell_resid_zero rx ry cs sn c X :
+  ~ rx == 0 -> ~ ry == 0 ->
+  (ell_resid rx ry cs sn (qsub X c) == 0 <-> on_conic c (ellipse_conic rx ry cs sn) X).
+Proof.
+  intros Hx Hy. unfold on_conic. rewrite (ell_resid_eq _ _ _ _ _ Hx Hy).
+  assert (N : ~ rx * rx * (ry * ry) == 0).
+  { intro C. apply Qmult_integral in C as [C|C]; apply Qmult_integral in C as [C|C]; contradiction. }
+  split; intro H.
+  - apply Qmult_integral in H as [H|H]; [lra|contradiction].
+  - rewrite H. ring.
+Qed.
+
 (** full extent of the ellipse (Bounds uses dx = sqrt(rx^2 cos^2 + ry^2 sin^2), dy likewise): every point of
     the ellipse has |x - cx|^2 <= rx^2 cs^2 + ry^2 sn^2 (Cauchy–Schwarz), and |y - cy|^2 <= rx^2 sn^2 + ry^2 cs^2 *)
 Lemma ellipse_extent_x rx ry cs sn c u v :
